@@ -27,6 +27,7 @@ type Env struct {
 	at     string
 	loopPre *State // state at loop entry (before havoc), for loopold()/loopfresh()
 	iterHead *State // state at the head of the current loop iteration (call-site assertions)
+	guard    *[]T   // when set: collects "dereferenced object is not nil" conditions (designators)
 	params  map[string]Val // entry values of the formals (visible when no local shadows them)
 }
 
@@ -235,6 +236,11 @@ func (e *Env) field(x Val, name string) Val {
 	}
 	cur := x
 	for _, i := range index {
+		if e.guard != nil {
+			if _, isPtr := cur.Typ.Underlying().(*types.Pointer); isPtr {
+				*e.guard = append(*e.guard, not(eq(cur.one(), "0")))
+			}
+		}
 		cur = e.c.selectField(e.st, cur, i)
 	}
 	return cur
@@ -869,9 +875,32 @@ type ModLoc struct {
 	// reference set: every element of a slice of references (x[*][*])
 	SetE, SetOff, SetLen T
 	Everything bool // `modifies everything`: no frame at all
+	Guard      T    // the location exists only if this holds ("" = always)
 }
 
+// designator evaluates a frame designator. A location reached through a nil
+// object does not exist: every ModLoc carries the guard "all dereferenced
+// objects on the way are non-nil".
 func (e *Env) designator(x ast.Expr) []ModLoc {
+	if e.guard != nil {
+		return e.designator0(x)
+	}
+	var gs []T
+	n := *e
+	n.guard = &gs
+	locs := n.designator0(x)
+	g := and(gs...)
+	for i := range locs {
+		if locs[i].Guard == "" {
+			locs[i].Guard = g
+		} else {
+			locs[i].Guard = and(locs[i].Guard, g)
+		}
+	}
+	return locs
+}
+
+func (e *Env) designator0(x ast.Expr) []ModLoc {
 	if id, ok := x.(*ast.Ident); ok && id.Name == "everything" {
 		return []ModLoc{{Key: "*", Everything: true}}
 	}
@@ -906,10 +935,20 @@ func (e *Env) designator(x ast.Expr) []ModLoc {
 		}
 		cur := base
 		for _, i := range index[:len(index)-1] {
+			if e.guard != nil {
+				if _, isPtr := cur.Typ.Underlying().(*types.Pointer); isPtr {
+					*e.guard = append(*e.guard, not(eq(cur.one(), "0")))
+				}
+			}
 			cur = e.c.selectField(e.st, cur, i)
 		}
 		st = deref(cur.Typ)
 		ref = cur.one()
+		if e.guard != nil {
+			if _, isPtr := cur.Typ.Underlying().(*types.Pointer); isPtr {
+				*e.guard = append(*e.guard, not(eq(ref, "0")))
+			}
+		}
 		f := st.Underlying().(*types.Struct).Field(index[len(index)-1])
 		return e.c.fieldLocs(st, f, ref)
 	case *ast.StarExpr:
